@@ -112,6 +112,11 @@ func layoutOf(v util.Message) (hdr int, segs []seg, ok bool) {
 			h := 14
 			if c.VLANID.VID != 0 {
 				h = 18
+			} else if c.VLANID.PCP != 0 || c.VLANID.DEI != 0 {
+				// priority bits without a VLAN id (what decoding a priority-tagged frame leaves): whether a
+				// tag is written is not this property's business (C09); the payload must follow a 14- or
+				// 18-byte header intact either way
+				h = -1
 			}
 			return h, []seg{{kid: c.Data}}, true
 		}
@@ -173,6 +178,14 @@ func checkSizeAndEmbedding(c *ev.Collector, t ev.Fataler, kind string, v util.Me
 		return true
 	}
 	stats.containers++
+	if hdr == -1 {
+		kb, _, _ := safeMarshal(segs[0].kid)
+		hdr = len(b) - len(kb)
+		if hdr != 14 && hdr != 18 {
+			c.Report(t, fmt.Sprintf("C06|%s|embed|child-not-intact|%T", tn, segs[0].kid), fmt.Sprintf("the payload (%T, %d bytes) does not fit behind a 14- or 18-byte header in the %d bytes of the frame :: container %s", segs[0].kid, len(kb), len(b), hx(b)), map[string]any{"kind": kind, "container": tn, "hex": hx(b)})
+			return false
+		}
+	}
 	if hdr > len(b) {
 		c.Report(t, "C06|"+tn+"|embed|shorter-than-header", fmt.Sprintf("%d bytes, header is %d", len(b), hdr), kind)
 		return false
@@ -259,6 +272,11 @@ func TestC06(t *testing.T) {
 		gv := anyValue(rt, drawBudget(rt))
 		addLabels(c, gv.labels)
 		c.Label("family=" + gv.family)
+		if e, ok := gv.v.(*protocol.Ethernet); ok && e.VLANID.VID == 0 && rapid.IntRange(0, 2).Draw(rt, "priority_bits_without_vid") == 0 {
+			// the value a decoder leaves for a priority-tagged frame: priority / DEI set, VLAN id 0
+			e.VLANID.PCP, e.VLANID.DEI = uint8(rapid.IntRange(0, 7).Draw(rt, "pcp")), uint8(rapid.IntRange(0, 1).Draw(rt, "dei"))
+			c.Label("ethernet_priority_bits_without_vid")
+		}
 		var st embedStats
 		ok := checkSizeAndEmbedding(c, rt, gv.kind, gv.v, 0, &st)
 		if ok {
